@@ -235,16 +235,24 @@ class FatIO(io.RawIOBase):
                 # Always keep at least one cluster allocated
                 num_clusters = max(1, self.fs.calc_num_clusters(size))
                 i = 0
+                last_kept = None
                 for c in self.fs.get_cluster_chain(
                         self.dir_entry.get_cluster()):
                     i += 1
                     if i <= num_clusters:
+                        last_kept = c
                         continue
                     self.fs.free_cluster_chain(c)
+                    # Terminate the part of the chain that is kept
+                    cluster_vals = self.fs.FAT_CLUSTER_VALUES[self.fs.fat_type]
+                    self.fs.fat[last_kept] = cluster_vals["END_OF_CLUSTER_MAX"]
                     self.fs.flush_fat()
                     break
 
             # Update file size
             self.dir_entry.filesize = size
             self.fs.update_directory_entry(self.dir_entry.get_parent_dir())
+            if cur_pos > size:
+                # The cursor may point into the released part of the chain
+                self.seek(size)
             return size
